@@ -21,7 +21,7 @@ ASSUMPTIONS = [
     'farthest-point tolerance d >= dmax - (1e-9(1+dmax)+eps); if every distance < eps any interior point is admissible (library guard)',
 ]
 BOUNDS = {
-    'quick': {'A12 / Y013 re-embedded (y*2^-34; x*2^-20,y*2^-27; y*2^34)': 'n=5 / n=7', 'A': 'n<=4 complete', 'A12 (x0=0,gaps 1-2)': 'n=5 complete', 'B,C': 'n=4', 'Y013 (unit gaps, y in 0,1,3)': 'n=7 complete'},
+    'quick': {'A12 / Y013 re-embedded (y*2^-34; x*2^-20,y*2^-27; y*2^34)': 'n=5 / n=7', 'trace windows': 'web0_reduced.csv w=14, usr0.csv[::64] w=16', 'A': 'n<=4 complete', 'A12 (x0=0,gaps 1-2)': 'n=5 complete', 'B,C': 'n=4', 'Y013 (unit gaps, y in 0,1,3)': 'n=7 complete'},
     'thorough': {'A': 'n<=5 complete', 'A12': 'n=6 complete', 'B,C': 'n=5', 'A1': 'n=7', 'Y013': 'n=8 complete'},
 }
 TECHNIQUE = 'history exploration of rdp_fixed (k = 0..n+1) on all small curves; every step checked against the reference greedy split machine'
@@ -35,6 +35,7 @@ def units(tier, seed):
         plan = [('A', 2, 1), ('A', 3, 2), ('A', 4, 16), ('A12', 5, 48), ('B', 4, 4), ('C', 4, 4), ('Y013', 7, 16)]
     else:
         plan = [('A', 2, 1), ('A', 3, 2), ('A', 4, 8), ('A', 5, 256), ('A12', 6, 256), ('B', 5, 32), ('C', 5, 32), ('A1', 7, 32), ('Y013', 8, 32)]
+    plan += [('Tweb0r', 14, 8), ('Tusr0s64', 16, 16)] if tier == 'quick' else [('Tweb0r', 14, 8), ('Tweb0r', 30, 8), ('Tusr0s64', 16, 16), ('Tusr0s64', 40, 16), ('Tusr0s8', 24, 64)]
     b = curves.bonus(seed, curves.A12)
     plan.append((b.name, 5, 48))
     for p in curves.tiny_family(curves.G12Y013 if tier == 'quick' else curves.A12):
